@@ -285,7 +285,13 @@ def _check_case(case, res, direct_cap=250, count=True):
             if count:
                 res.count('class:model-reached-through-edit-history')
         else:
-            built = Built(case, attackers=False)
+            def _tick2(a, k):
+                WRAPPER_EVENTS[0] += 1
+            w0 = Watch(agmod, '_process_step_expression', before=_tick2)    # generations of the interference layer are only counted
+            try:
+                built = Built(case, attackers=False)
+            finally:
+                w0.remove()
     except Exception as exc:
         # a well-formed language / valid model must be accepted
         return ('build:raised-%s' % type(exc).__name__,
